@@ -69,3 +69,39 @@ func (s *State) VerifPage() *Page    { return s.h.Current() }
 func (p *Page) VerifLoading() (bool, bool) {
 	return p.loadingUp, p.loadingDown
 }
+
+/* A consistent snapshot of the state, taken under the mutex. */
+func (s *State) VerifSnapshot() map[string]any {
+	s.m.Lock()
+	defer s.m.Unlock()
+	out := map[string]any{"mode": s.mode, "buffer": s.buffer, "haspage": !s.h.IsEmpty()}
+	if !s.h.IsEmpty() {
+		page := s.h.Current()
+		out["loading"] = page.loadingUp || page.loadingDown
+		out["current"] = pub.VerifDump(page.feed.Current())
+		window := []any{}
+		for off := -3; off <= 3; off++ {
+			if page.feed.Contains(off) {
+				window = append(window, []any{off, pub.VerifDump(page.feed.Get(off))})
+			}
+		}
+		out["window"] = window
+		out["haschildren"] = page.children != nil
+		out["hasfrontier"] = page.frontier != nil
+		out["basepoint"] = int(page.basepoint)
+	}
+	return out
+}
+
+func (s *State) VerifSettled() bool {
+	s.m.Lock()
+	defer s.m.Unlock()
+	if s.mode == loading || s.mode == opening {
+		return false
+	}
+	if s.h.IsEmpty() {
+		return true
+	}
+	page := s.h.Current()
+	return !page.loadingUp && !page.loadingDown
+}
